@@ -77,6 +77,11 @@ def run(ctx):
         def bad(self, rule, key, *a, **k):
             return self.c.bad("C18.f", key, *a, **k)
     c01.rule_h(_Proxy(ctx), cr)
+    ctx.rule("C18.g", "INPUT pushes exactly as many reply fields as the statement's Input opcodes "
+             "pop: do_input rejects every reply whose field count differs from the variable count "
+             "(see C17.f), so a completed INPUT leaves nothing on the stack")
+    from rules import c17
+    c17.rule_f(ctx, cr, "C18.g")
 
 
 def rule_a(ctx, cr):
